@@ -330,8 +330,9 @@ def _run_bindings(ctx):
     # ---------------- direction A: the main graph, and a smaller one in which the ignore list changes
     # thorough: the ignore-list graph completely, the main graph within a step budget that covers
     # about two thirds of its edge groups (seeded choice; `exhaustive' says whether all were covered).
-    plan = [("QueryLog.gen.cfg", 3000 if ctx.quick else 100000), ("QueryLog.genig.cfg", 700 if ctx.quick else 0),
-            ("QueryLog.gencc.cfg", 800 if ctx.quick else 0)]
+    # The small graphs are walked first, while the edges of the main one are still being generated.
+    plan = [("QueryLog.gencc.cfg", 800 if ctx.quick else 0), ("QueryLog.genig.cfg", 700 if ctx.quick else 0),
+            ("QueryLog.gen.cfg", 3000 if ctx.quick else 100000)]
     res, by_act, table = [], {}, None
     summ = {k: 0 for k in ("walks", "steps", "queries", "covered", "groups", "bad", "flaky", "discards", "transit", "unobservable")}
     nrows = nstates_obs = nontrivial = 0
@@ -345,9 +346,9 @@ def _run_bindings(ctx):
         except Exception as e:  # re-raised below
             gens[cfg] = e
 
-    gthreads = [threading.Thread(target=generate, args=(plan[0][0], 4)),
+    gthreads = [threading.Thread(target=generate, args=(plan[0][0], 2)),
                 threading.Thread(target=generate, args=(plan[1][0], 2)),
-                threading.Thread(target=generate, args=(plan[2][0], 2))]
+                threading.Thread(target=generate, args=(plan[2][0], 4))]
     for t in gthreads:
         t.start()
     for (cfg, budget), gt in zip(plan, gthreads):
